@@ -58,6 +58,7 @@ import (
 //	writes  the assignment targets of the body that are not plain loop-local variables (index expressions
 //	        abstracted: `m[_]`), `delete(m, _)`, channel sends, ++/--
 //	calls   the functions and methods the body calls (logger chains left out), sorted
+//	stateCalls  those of `calls` that write block state, receipts or the state database, by name (ndStateWriters)
 //	hash    fingerprint of the printed body (comments and layout do not count)
 //
 // The Lean side (`Aergo.Model.Nondet.table`) maps every key to the theorem that covers it or to the
@@ -377,9 +378,20 @@ type ndScan struct {
 
 // ndLoop describes the body of one map iteration.
 type ndLoop struct {
-	key, exits, hash string
-	writes, calls    []string
+	key, exits, hash          string
+	writes, calls, stateCalls []string
 }
+
+// ndStateWriters: callee names that write block state, receipts or the state database (by name: a heuristic list,
+// kept generous). They are reported separately (`stateCalls`) so that the Lean side can require, structurally, that a
+// loop classified `noState` calls none of them.
+var ndStateWriters = map[string]bool{".SetData": true, ".DeleteData": true, ".PutState": true, ".AddBalance": true,
+	".SubBalance": true, ".SetNonce": true, ".SetCode": true, ".SetStorageRoot": true, "statedb.StageContractState": true,
+	"state.SendBalance": true, ".Set": true, ".Delete": true, ".put": true, ".Put": true, ".push": true, ".AddReceipt": true,
+	".AddInternalOps": true, ".AddEvent": true, ".Update": true, ".update": true, ".Commit": true, ".commit": true,
+	".stage": true, ".Stage": true, ".write": true, ".Rollback": true, ".rollback": true, ".Snapshot": true, ".snapshot": true,
+	".Apply": true, ".addVotingPower": true, ".addTotal": true, ".RemoveCache": true, "SendBlockReward": true,
+	"chain.SendBlockReward": true, "sendRewardCoinbase": true, "sendVotingReward": true, ".SetGasPrice": true}
 
 func (s *ndScan) add(kind string, n ast.Node) string {
 	var sb strings.Builder
@@ -626,8 +638,14 @@ func (s *ndScan) loop(key string, body ast.Node, isFuncLit bool) {
 		return out
 	}
 	sum := sha256.Sum256([]byte(s.text(body)))
+	stateCalls := []string{}
+	for _, c := range keys(calls) {
+		if ndStateWriters[c] {
+			stateCalls = append(stateCalls, c)
+		}
+	}
 	*s.loops = append(*s.loops, ndLoop{key: key, exits: strings.Join(keys(exits), ","), writes: keys(writes), calls: keys(calls),
-		hash: hex.EncodeToString(sum[:6])})
+		stateCalls: stateCalls, hash: hex.EncodeToString(sum[:6])})
 }
 
 // typeOf: the static type of expression e, or a zero ndRef when unknown.
@@ -1228,8 +1246,8 @@ func cmdNondet(args []string) error {
 	}
 	b.WriteString("]\n\n")
 	sort.Slice(loops, func(i, j int) bool { return loops[i].key < loops[j].key })
-	b.WriteString("/-- one row per map iteration (kinds maprange, range?, syncmap) of `sites`, same order: the key, how the body can\nleave the loop early, the non-local targets it writes, the functions it calls (logger chains left out), and a\nfingerprint of the printed body -/\n")
-	b.WriteString("def loops : List (String × String × List String × List String × String) := [\n")
+	b.WriteString("/-- one row per map iteration (kinds maprange, range?, syncmap) of `sites`, same order: the key, how the body can\nleave the loop early, the non-local targets it writes, the functions it calls (logger chains left out), those of\nthem that write block state / receipts / the state database by name, and a fingerprint of the printed body -/\n")
+	b.WriteString("def loops : List (String × String × List String × List String × List String × String) := [\n")
 	strs := func(l []string) string {
 		q := make([]string, len(l))
 		for i, x := range l {
@@ -1238,7 +1256,7 @@ func cmdNondet(args []string) error {
 		return "[" + strings.Join(q, ", ") + "]"
 	}
 	for i, l := range loops {
-		fmt.Fprintf(&b, "  (%s,\n    %s, %s,\n    %s, %s)%s\n", leanStr(l.key), leanStr(l.exits), strs(l.writes), strs(l.calls), leanStr(l.hash), comma(i, len(loops)))
+		fmt.Fprintf(&b, "  (%s,\n    %s, %s,\n    %s,\n    %s, %s)%s\n", leanStr(l.key), leanStr(l.exits), strs(l.writes), strs(l.calls), strs(l.stateCalls), leanStr(l.hash), comma(i, len(loops)))
 	}
 	b.WriteString("]\n\n")
 	fmt.Fprintf(&b, "end %s\n", *ns)
